@@ -12,6 +12,9 @@
 (*            k = "code"  plain statement text t                           *)
 (*                "sq"    '...' string literal with value t                *)
 (*                "dq"    "..." string literal with value t                *)
+(*                "sqc"   '...' string literal with value t, written with  *)
+(*                        a continuation-line break inside the character   *)
+(*                        context (after its 5th character)                *)
 (*                "cmt"   comment t (full line when it is the only region, *)
 (*                        inline otherwise), t includes the `!`            *)
 (*                "cpp"   preprocessor directive line t                    *)
@@ -39,7 +42,7 @@ Flat(lines) == IF lines = <<>> THEN <<>> ELSE Head(lines).regs \o Flat(Tail(line
 Texts(regs, kinds) == LET s == SelectSeq(regs, LAMBDA r : r.k \in kinds) IN [i \in DOMAIN s |-> s[i].t]
 
 (* ---- the expected observables: functions of the abstract source only ---- *)
-Strings(src)    == Texts(Flat(src), {"sq", "dq"})      \* values of all string literals, in order
+Strings(src)    == Texts(Flat(src), {"sq", "dq", "sqc"})      \* values of all string literals, in order
 Comments(src)   == Texts(Flat(src), {"cmt"})           \* all comments, in order
 Directives(src) == Texts(Flat(src), {"cpp"})
 Idents(src)     == {r.t : r \in {Flat(src)[i] : i \in DOMAIN Flat(src)} \cap {x \in {Flat(src)[i] : i \in DOMAIN Flat(src)} : x.k = "id"}}
@@ -60,7 +63,7 @@ ObsOpens(o) == [i \in DOMAIN o.opens |-> {<<o.opens[i][j][1], o.opens[i][j][2]>>
 
 \* string literals: exactly the source's literals, in order; a targeted macro token in code position may
 \* additionally show up as one string constant of unspecified value (documented replacement)
-StrPattern(src) == SelectSeq(Flat(src), LAMBDA r : r.k \in {"sq", "dq", "tgt"})
+StrPattern(src) == SelectSeq(Flat(src), LAMBDA r : r.k \in {"sq", "dq", "sqc", "tgt"})
 RECURSIVE MatchStr(_, _)
 MatchStr(o, e) ==
   IF e = <<>> THEN o = <<>>
@@ -83,15 +86,24 @@ Clauses(src, o) ==
 (* position.                                                               *)
 (***************************************************************************)
 Macros   == {"__FILE__", "__FILENAME__", "__DATE__", "__VERSION__", "__LINE__"}
-Triggers == Macros \cup {"@PROCESS", "CONVERT", "NEWUNIT"}
+\* whole-statement look-alikes of the OPEN workarounds' targets (text that reads like a complete OPEN statement
+\* with CONVERT= / NEWUNIT=, in upper case and in lower/mixed case with a blank before the parenthesis)
+OpenLike == {"OPENCONV", "OPENCONVLC", "OPENNEWU", "OPENNEWUMC"}
+Triggers == Macros \cup {"@PROCESS", "CONVERT", "NEWUNIT"} \cup OpenLike
 Positions == {"start", "middle", "end"}
 Places == {"sq", "dq", "print", "callarg", "cmt", "icmt", "cpp", "id", "openstr", "opencmt", "opencont",
-           "code", "openspec"}
+           "contstr", "contcmt", "code", "openspec", "semiopen"}
 
 \* textual form of trigger t when quoted material must avoid the delimiter q ("s" single, "d" double, "" none)
 Form(t, q) == CASE t = "CONVERT" -> IF q = "s" THEN "CONVERT=\"BIG_ENDIAN\"" ELSE "CONVERT='BIG_ENDIAN'"
                 [] t = "NEWUNIT" -> "NEWUNIT=iu"
                 [] t = "@PROCESS" -> "@PROCESS HOT"
+                [] t = "OPENCONV" -> IF q = "s" THEN "OPEN(IU, FILE=\"x\", CONVERT=\"BIG_ENDIAN\")"
+                                     ELSE "OPEN(IU, FILE='x', CONVERT='BIG_ENDIAN')"
+                [] t = "OPENCONVLC" -> IF q = "s" THEN "open (iu, file=\"x\", convert=\"little_endian\")"
+                                       ELSE "open (iu, file='x', convert='little_endian')"
+                [] t = "OPENNEWU" -> "OPEN(NEWUNIT=IU, FILE=F)"
+                [] t = "OPENNEWUMC" -> "Open (File=f, NewUnit=iu)"
                 [] OTHER -> t
 
 Put(f, pos) == CASE pos = "start" -> f \o " tail" [] pos = "middle" -> "head " \o f \o " tail" [] pos = "end" -> "head " \o f
@@ -115,6 +127,20 @@ Payload(t, place, pos) ==
     [] place = "opencont"-> << Open(<<R("code", "open(unit=iu, "), R("cont", ""), R("code", "file="),
                                       R("sq", Put(Form(t, "s"), pos)), R("code", ")")>>,
                                     << <<"unit", "iu">>, <<"file", "'" \o Put(Form(t, "s"), pos) \o "'">> >>) >>
+    \* a string continued over two lines with the look-alike on the continuation line
+    [] place = "contstr" -> << Ln(<<R("code", "msg = "), R("sqc", Put(Form(t, "s"), pos))>>) >>
+    \* a comment line between the lines of a continued statement
+    [] place = "contcmt" -> << Ln(<<R("code", "i = 1 + &")>>),
+                               Ln(<<R("cmt", "! " \o Put(Form(t, ""), pos))>>),
+                               Ln(<<R("code", "& 2")>>) >>
+    \* a real OPEN statement (targeted, must be restored) that does not start its line
+    [] place = "semiopen"->
+         LET tx == IF t = "CONVERT" THEN <<R("code", "i = 1; open(unit=iu, file="), R("sq", "f.dat"), R("code", ", CONVERT="),
+                                             R("sq", "BIG_ENDIAN"), R("code", ")")>>
+                   ELSE <<R("code", "i = 1; open(NEWUNIT=iu, file="), R("sq", "f.dat"), R("code", ")")>>
+             sp == IF t = "CONVERT" THEN << <<"unit", "iu">>, <<"file", "'f.dat'">>, <<"convert", "'BIG_ENDIAN'">> >>
+                   ELSE << <<"newunit", "iu">>, <<"file", "'f.dat'">> >>
+         IN << Open(tx, sp) >>
     [] place = "code"    -> IF t = "@PROCESS" THEN <<>>     \* (the directive line precedes the unit, see Source)
                             ELSE << Ln(<<R("code", IF t = "__LINE__" THEN "i = " ELSE "msg = "), R("tgt", t)>>) >>
     [] place = "openspec"->
@@ -137,7 +163,10 @@ Legal(t, place, pos) ==
   /\ (place = "id" => t \in Macros /\ pos # "start")              \* identifiers start with a letter, contain no = @ '
   /\ (place = "code" => t \in Macros \cup {"@PROCESS"} /\ pos = "start")
   /\ (place = "openspec" => t \in {"CONVERT", "NEWUNIT"})
-  /\ (place = "openspec" /\ t = "NEWUNIT" => TRUE)
+  /\ (place = "semiopen" => t \in {"CONVERT", "NEWUNIT"} /\ pos = "start")
+  /\ (place \in {"contstr", "contcmt"} => t \in OpenLike)
+  /\ (place = "contstr" => pos # "start")              \* the break comes right after "head "
+  /\ (t \in OpenLike => place \notin {"id", "code", "openspec", "semiopen"})
 
 Source(t, place, pos) ==
   (IF place = "code" /\ t = "@PROCESS" THEN << Ln(<<R("tgt", "@PROCESS HOT(NOVECTOR) NOSTRICT")>>) >> ELSE <<>>)
